@@ -925,4 +925,79 @@ theorem step_passive (A : FArith T) {s : Conn T} (h : Inv s) (hl : s.state.isEnd
       · first | rfl | exact hd
   | next => left; simp only [step, nextEvent]; split <;> exact hd
 
+/-! ### whole sequences: the idle period -/
+
+/-- END states are never left -/
+theorem run_end (A : FArith T) (more : List (Op T)) {s : Conn T} (h : Inv s)
+    (he : s.state.isEnd = true) : (run A s more).state.isEnd = true := by
+  induction more generalizing s with
+  | nil => exact he
+  | cons op rest ih =>
+    exact ih (inv_step A h op (usage_of_end h he op)) (step_end A h he op).1
+
+/-- every op of the list is `passive` -/
+def AllPassive : List (Op T) → Prop
+  | [] => True
+  | op :: ops => op.passive ∧ AllPassive ops
+
+/-- over passive operations the idle deadline `d` stays armed and unchanged
+    until the connection starts closing or terminates -/
+theorem passive_run (A : FArith T) (more : List (Op T)) {s : Conn T} (h : Inv s)
+    (hl : s.state.isEnd = false) (d : T) (hd : s.closeAt = some d)
+    (hu : Usage A s more) (hp : AllPassive more) :
+    (run A s more).state.isEnd = true ∨
+    ((run A s more).state.isEnd = false ∧ (run A s more).closeAt = some d) := by
+  induction more generalizing s with
+  | nil => exact Or.inr ⟨hl, hd⟩
+  | cons op rest ih =>
+    have hi := inv_step A h op hu.1
+    have hrun : run A s (op :: rest) = run A (step A s op) rest := rfl
+    rw [hrun]
+    cases hb : (step A s op).state.isEnd with
+    | true => exact Or.inl (run_end A rest hi hb)
+    | false =>
+      rcases step_passive A h hl d hd op hu.1 hp.1 with h1 | h1
+      · exact ih hi hb h1 hu.2 hp.2
+      · rw [hb] at h1; cases h1
+
+/-- over passive operations, once a `handle_timer(now)` with `now >= d` has been
+    executed the connection has terminated or is in its closing period -/
+theorem passive_run_due (A : FArith T) (more : List (Op T)) {s : Conn T} (h : Inv s)
+    (hl : s.state.isEnd = false) (d : T) (hd : s.closeAt = some d)
+    (hu : Usage A s more) (hp : AllPassive more) (now : T) (hin : Op.fire now ∈ more)
+    (hdue : A.le d now = true) : (run A s more).state.isEnd = true := by
+  induction more generalizing s with
+  | nil => cases hin
+  | cons op rest ih =>
+    have hi := inv_step A h op hu.1
+    have hrun : run A s (op :: rest) = run A (step A s op) rest := rfl
+    rw [hrun]
+    by_cases hop : op = .fire now
+    · subst hop
+      have hdue' := handleTimer_due A s d now hd hdue
+      exact run_end A rest hi (by
+        show (handleTimer A s now).state.isEnd = true
+        rw [hdue'.1]; rfl)
+    · have hin' : Op.fire now ∈ rest := by
+        rcases List.mem_cons.mp hin with a | a
+        · exact absurd a.symm hop
+        · exact a
+      cases hb : (step A s op).state.isEnd with
+      | true => exact run_end A rest hi hb
+      | false =>
+        rcases step_passive A h hl d hd op hu.1 hp.1 with h1 | h1
+        · exact ih hi hb h1 hu.2 hp.2 hin'
+        · rw [hb] at h1; cases h1
+
+/-- a `Usage`-respecting run can be split -/
+theorem usage_append (A : FArith T) (ops more : List (Op T)) (s : Conn T) :
+    Usage A s (ops ++ more) ↔ Usage A s ops ∧ Usage A (run A s ops) more := by
+  induction ops generalizing s with
+  | nil => simp [Usage, run]
+  | cons op rest ih =>
+    simp only [List.cons_append, Usage, ih]
+    constructor
+    · rintro ⟨a, b, c⟩; exact ⟨⟨a, b⟩, c⟩
+    · rintro ⟨⟨a, b⟩, c⟩; exact ⟨a, b, c⟩
+
 end AQ.CloseTimer
